@@ -1,7 +1,7 @@
 (* Report.v — model of PatternNode/NodeKind, error_label, Display for PatternNode
    and the fallback branch of Display for ErrorReport (assert-struct/src/error.rs). *)
 From ASModel Require Import Base.
-Open Scope string_scope.
+Local Open Scope string_scope.
 
 Inductive cmp_op := OpLt | OpLe | OpGt | OpGe | OpEq | OpNe.
 
